@@ -99,4 +99,47 @@ def run(ctx: Ctx) -> bool:
         return False
     ctx.check(not bad, "R-C17.4", key, ph.where, {"cases": len(cases), "INT_WIDTH": width, "counterexamples": bad[:4]},
               "an accepted nat/int constant is lowered with the wrong signedness or width")
+    _unsigned_value_class(ctx, width)
     return True
+
+
+def _unsigned_value_class(ctx: Ctx, width: int) -> None:
+    """The repository's own constant class for nat values accepts every nat and carries the value unchanged."""
+    idx = ctx.idx
+    cls = idx.classes.get("guppylang_internals.std._internal.compiler.arithmetic.UnsignedIntVal")
+    if cls is None:
+        return
+    key = f"{cls.qualname}#holds-every-nat-value"
+    bad = []
+    try:
+        for v in (0, 1, (1 << 63) - 1, 1 << 63, (1 << 63) + 12345, (1 << 64) - 1):
+            me = Tok("unsigned_val", v=v, width=width, __classes__=cls.mro(), __ident__=1)
+            pi = cls.find_method("__post_init__")
+            if pi is not None:
+                ev = PyEval(idx, cls.module.name, max_depth=4)
+                ev.check_asserts = True
+                out = ev.run_function(pi, {pi.node.args.args[0].arg: me})
+                if out[0] == "raise":
+                    bad.append({"value": str(v), "problem": f"constructing the constant raises {out[1]}"})
+                    continue
+            tv = cls.find_method("to_value")
+            if tv is not None:
+                seen = {}
+
+                def h_ext(node, e, env, seen=seen):
+                    for k in node.keywords:
+                        if k.arg:
+                            seen[k.arg] = e.ev(k.value, env)
+                    return Tok("extension_value")
+                ev = PyEval(idx, cls.module.name, max_depth=4)
+                ev.run_function(tv, {tv.node.args.args[0].arg: me, "val.Extension": h_ext, "int_t": lambda node, e, env: Tok("int_t")})
+                payload = seen.get("val")
+                if not (isinstance(payload, dict) and payload.get("value") == v and payload.get("log_width") == width):
+                    bad.append({"value": str(v), "payload": repr(payload)[:80], "should_carry": {"value": str(v), "log_width": width}})
+    except Unsupported as e:
+        ctx.undecided("R-C17.4", key, cls.where, str(e))
+        return
+    except Raised as e:
+        bad.append({"problem": f"raises {e.cls or e}"})
+    ctx.check(not bad, "R-C17.4", key, cls.where, {"values": 6, "counterexamples": bad[:3]},
+              "a nat constant that passed the range check cannot be lowered (or is lowered to another value)")
